@@ -6,7 +6,9 @@
 //!   c15 probe <dir>                                compile the project in <dir> (main.sy) and print the errors
 //! The expectation (which file, which line) is NOT computed here: TLC derives it from the recorded text
 //! and marker offset (Trace_Diag / SyltDiag!LineOf).
-//! C15_STUB=line1 (negative control): pretend the implementation reports every error on line 1.
+//! Negative controls: C15_STUB=line1 pretends the implementation reports every error on line 1;
+//! C15_STUB=f1 re-creates the tokenizer regression fixed by e1d1e87 (newlines inside string literals are
+//! not counted, so everything after a multi-line literal is reported too early).
 
 use rand::{Rng, SeedableRng};
 use serde_json::{json, Value};
@@ -16,9 +18,9 @@ use vharness::project::{compile, CompileResult, Project};
 use vharness::util::*;
 
 // index order must equal SyltDiag!Kinds / Files / Poss / Shapes
-const KINDS: [&str; 12] = [
+const KINDS: [&str; 13] = [
     "syn_rparen", "syn_char", "unresolved", "dup_global", "const_local", "const_global", "const_param",
-    "op_mismatch", "arg_mismatch", "annot_mismatch", "break_outside", "conflict",
+    "op_mismatch", "arg_mismatch", "annot_mismatch", "break_outside", "conflict", "dup_import",
 ];
 const FILES: [&str; 3] = ["main", "sibling", "sub"];
 const POSS: [&str; 5] = ["top_first", "top_mid", "top_last", "fn_body", "if_branch"];
@@ -39,20 +41,16 @@ fn is_top(pos: &str) -> bool {
     pos.starts_with("top_")
 }
 
-/// Statement kinds cannot stand at the top level (only definitions can): there they are wrapped in a
-/// one-line function definition, which is still one construct on one line.
-fn statement_kind(kind: &str) -> bool {
-    matches!(kind, "const_local" | "const_global" | "const_param" | "break_outside")
-}
-
 fn applicable(kind: &str, pos: &str) -> bool {
     match kind {
-        "dup_global" => is_top(pos),   // a global can only be defined at the top level
+        "dup_global" | "dup_import" => is_top(pos), // a global can only be defined at the top level
         "const_local" => !is_top(pos), // a one-line function cannot hold a definition and an assignment
         _ => true,
     }
 }
 
+/// The planted construct's spelling. Statement kinds cannot stand at the top level (only definitions can):
+/// there they are wrapped in a one-line function definition, which is still one construct on one line.
 /// The planted construct's spelling (same table as SyltDiag!Construct; TLC checks the text at the marker).
 fn construct(kind: &str, top: bool) -> &'static str {
     match (kind, top) {
@@ -71,6 +69,7 @@ fn construct(kind: &str, top: bool) -> &'static str {
         ("break_outside", false) => "break",
         ("break_outside", true) => "pf :: fn do break end",
         ("conflict", _) => "<<<<<<< HEAD",
+        ("dup_import", _) => "leaf :: 7",
         _ => tool_error("unknown kind"),
     }
 }
@@ -135,12 +134,13 @@ fn template(file: &str, depth: usize, inserts: &[(Place, Line)]) -> Vec<Line> {
         }
     };
     put(&mut out, Place::TopFirst, 0);
+    out.push(ln(0, "use /leaf"));
     if file == "main" {
         out.push(ln(0, "use other"));
         out.push(ln(0, "use sub/inner"));
     }
     out.push(ln(0, "ga :: 1"));
-    out.push(ln(0, "gb := 2"));
+    out.push(ln(0, "gb := leaf.lv"));
     put(&mut out, Place::TopMid, 0);
     out.push(ln(0, "helper :: fn a: int, b: int -> int do"));
     out.push(ln(1, "c :: a + b"));
@@ -189,10 +189,7 @@ fn join(lines: &[Line], st: Style) -> (String, usize) {
     let mut s = String::new();
     let mut marker = 0usize;
     for l in lines {
-        let blank_only = l.text == "\n";
-        if !(blank_only && l.level == 0) {
-            s.push_str(&unit.repeat(l.level));
-        }
+        s.push_str(&unit.repeat(l.level));
         if l.planted {
             marker = s.chars().count() + 1;
         }
@@ -220,10 +217,10 @@ struct Case {
 fn case_at(idx: usize) -> Case {
     // same mixed-radix layout as SyltDiag!Case: kind fastest, then file, position, shape
     let m = idx - 1;
-    let kind = KINDS[m % 12];
-    let file = FILES[(m / 12) % 3];
-    let pos = POSS[(m / 36) % 5];
-    let shape = SHAPES[(m / 180) % 9];
+    let kind = KINDS[m % 13];
+    let file = FILES[(m / 13) % 3];
+    let pos = POSS[(m / 39) % 5];
+    let shape = SHAPES[(m / 195) % 9];
     let shapes = if shape_line(shape, 1).is_some() { vec![(pos.to_string(), shape.to_string())] } else { vec![] };
     Case {
         idx,
@@ -238,7 +235,7 @@ fn case_at(idx: usize) -> Case {
     }
 }
 
-const N_CROSS: usize = 12 * 3 * 5 * 9;
+const N_CROSS: usize = 13 * 3 * 5 * 9;
 
 fn case_json(c: &Case) -> Value {
     json!({"idx": c.idx, "kind": c.kind, "file": c.file, "pos": c.pos, "depth": c.depth, "shape": c.shape,
@@ -300,6 +297,8 @@ fn render(c: &Case) -> Rendered {
             base.insert(p, t);
         }
     }
+    planted.insert("leaf.sy".to_string(), "lv :: 2\n".to_string());
+    base.insert("leaf.sy".to_string(), "lv :: 2\n".to_string());
     if marker == 0 {
         tool_error("planted line was not rendered");
     }
@@ -329,6 +328,19 @@ fn run_case(c: &Case) -> (Value, Value) {
     };
     if stub.as_deref() == Some("line1") && eline > 0 {
         eline = 1;
+    }
+    if stub.as_deref() == Some("f1") && eline > 0 && efile == r.path {
+        // the regression fixed by e1d1e87: newlines inside string literals are not counted
+        let mut in_str = false;
+        let mut lost = 0;
+        for ch in r.text.chars().take(r.marker - 1) {
+            if ch == '"' {
+                in_str = !in_str;
+            } else if ch == '\n' && in_str {
+                lost += 1;
+            }
+        }
+        eline = eline.saturating_sub(lost).max(1);
     }
     let trace = json!({
         "idx": c.idx, "kind": c.kind, "file": c.file, "pos": c.pos, "shape": c.shape,
